@@ -25,12 +25,13 @@ LEVEL = {"C20": "model_checking"}
 SP = SPEC / "watch"
 
 # the switches describe /repo's current tree (fix: commits 25efe9b, 1fd4fb4)
-FIXES = {"FixPrefix": "TRUE", "FixSourceFilter": "TRUE"}
+FIXES = {"FixPrefix": "TRUE", "FixSourceFilter": "TRUE", "FixBoundaryMoves": "TRUE", "FixSchemaRename": "TRUE"}
 
 
 def cfg_text(maxops, emit):
     return (f"SPECIFICATION Spec\nCONSTANTS\n  MaxOps = {maxops}\n  Emit = {'TRUE' if emit else 'FALSE'}\n"
             f"  FixPrefix = {FIXES['FixPrefix']}\n  FixSourceFilter = {FIXES['FixSourceFilter']}\n"
+            f"  FixBoundaryMoves = {FIXES['FixBoundaryMoves']}\n  FixSchemaRename = {FIXES['FixSchemaRename']}\n"
             "VIEW View\nINVARIANT Explained\nACTION_CONSTRAINT EmitReplay\n")
 
 
@@ -49,17 +50,23 @@ def check_notify_model(chk, binp, replays, limit):
     edit.  Informational: a difference is an ASSUMPTION difference (drift), never a violation."""
     seen, scen = set(), []
     for rp in replays:
-        ops = [o for o in rp["ops"] if o["op"] in ("write", "delete", "rename", "rmdir", "mvdir", "batch")]
+        ops = [o for o in rp["ops"] if o["op"] in ("write", "delete", "rename", "rmdir", "mvdir", "batch", "movein", "moveout", "movein_dir", "moveout_dir", "atomic")]
         if len(ops) != len(rp["ops"]) or not ops:
             continue
         last = ops[-1]
-        if any(o["op"] == "batch" for o in ops[:-1]):
+        if any(o["op"] in ("batch", "movein", "moveout", "movein_dir", "moveout_dir", "atomic") for o in ops[:-1]):
             continue
         key = (last["op"], last.get("p"), last.get("q"), json.dumps(last.get("edits")), len(ops))
         if key in seen:
             continue
         seen.add(key)
         base = [{"op": "write", "p": "src/a/x.ts"}, {"op": "write", "p": "src/ab/y.ts"}, {"op": "write", "p": "src/top.ts"}]
+        # what the boundary moves / the atomic save need to find on disk before the watcher starts
+        prep = {"movein": [{"op": "write", "p": "outside/in.ts"}],
+                "moveout": [{"op": "write", "p": "outside/keep.ts"}], "moveout_dir": [{"op": "write", "p": "outside/keep.ts"}],
+                "movein_dir": [{"op": "write", "p": "outside/dir/x.ts"}, {"op": "write", "p": "outside/dir/n.md"}],
+                "atomic": [{"op": "write", "p": str(last.get("p")) + ".tmp"}]}.get(last["op"], [])
+        base = base + prep
         scen.append({"id": len(scen), "setup": base + [{k: v for k, v in o.items() if k != "evs"} for o in ops[:-1]],
                      "edit": {k: v for k, v in last.items() if k != "evs"}, "model": last["evs"]})
         if last["op"] == "batch":
